@@ -10,8 +10,8 @@ set_option autoImplicit false
 namespace WinSpec
 
 inductive Ev where
-  | arr (id : Nat) (ts : Option Int)                       -- a row was ingested (`none`: no usable timestamp)
-  | emit (late : Bool) (start stop : Int) (ids : List Nat) -- a result was delivered (late = re-delivery caused by a late row)
+  | arr (id : Nat) (ts : Option Int) (grp : Nat := 0)      -- a row was ingested (`none`: no usable timestamp); `grp` = its GROUP BY key
+  | emit (late : Bool) (start stop : Int) (ids : List Nat) (grp : Nat := 0) -- a result (of group `grp`) was delivered (late = re-delivery caused by a late row)
   deriving Repr, DecidableEq
 
 structure Cfg where
@@ -30,13 +30,15 @@ structure Seen where
   onTime : Bool      -- not late on arrival: ts ≥ (largest valid ts seen so far, itself included) − ooo
   corrupt : Bool     -- beyond the far-future guard
   wmAtArrival : Option Int := none   -- the watermark right after this arrival
+  grp : Nat := 0
   deriving Repr
 
 structure Scan where
   seen : List Seen := []
   maxTs : Option Int := none          -- largest valid timestamp seen so far
-  firsts : List (Int × Int × List Nat) := []   -- delivered intervals so far (start, stop, current ids), in order
-  expect : Option (Int × Int × Nat) := none    -- a late row inside the allowance of a delivered interval: the next event must be its re-delivery
+  firsts : List (Int × Int × List Nat) := []   -- delivered intervals so far (start, stop, current ids), in order (all groups)
+  firstGrp : List Nat := []                    -- group of each entry of `firsts`
+  expect : List (Int × Int × Nat) := []        -- a late row inside the allowance of delivered intervals: the next events must be their re-deliveries (start, stop, id), in interval order
   err : Option String := none
   deriving Repr
 
@@ -48,31 +50,31 @@ def maxOpt (o : Option Int) (x : Int) : Int := match o with | none => x | some y
 
 def fail (s : Scan) (m : String) : Scan := if s.err.isSome then s else { s with err := some m }
 
-def stepArr (c : Cfg) (s : Scan) (id : Nat) (ts : Int) : Scan :=
+def stepArr (c : Cfg) (s : Scan) (id : Nat) (ts : Int) (g : Nat := 0) : Scan :=
   if c.now + c.ooo + c.slack < ts then
-    { s with seen := s.seen ++ [{ id := id, ts := ts, onTime := true, corrupt := true, wmAtArrival := s.maxTs.map (· - c.ooo) }] }
+    { s with seen := s.seen ++ [{ id := id, ts := ts, onTime := true, corrupt := true, wmAtArrival := s.maxTs.map (· - c.ooo), grp := g }] }
   else
     { s with maxTs := some (maxOpt s.maxTs ts),
              seen := s.seen ++ [{ id := id, ts := ts, onTime := decide (maxOpt s.maxTs ts - c.ooo ≤ ts), corrupt := false,
-                                  wmAtArrival := some (maxOpt s.maxTs ts - c.ooo) }] }
+                                  wmAtArrival := some (maxOpt s.maxTs ts - c.ooo), grp := g }] }
 
 def lookup (s : Scan) (id : Nat) : Option Seen := s.seen.find? (·.id = id)
 
 /-- clauses checked when a first firing `[start, stop)` with `ids` is delivered -/
-def checkFirst (c : Cfg) (s : Scan) (start stop : Int) (ids : List Nat) : Scan :=
+def checkFirst (c : Cfg) (s : Scan) (start stop : Int) (ids : List Nat) (g : Nat := 0) : Scan :=
   let s1 := if stop = start + c.size then s else fail s "interval-length"
   let s2 := if start % c.slide = 0 then s1 else fail s1 "interval-not-aligned"
   -- every reported row arrived before and lies inside the interval
   let s3 := if ids.all (fun i => match lookup s i with
-              | some r => decide (start ≤ r.ts) && decide (r.ts < stop)
+              | some r => decide (start ≤ r.ts) && decide (r.ts < stop) && r.grp == g
               | none => false) then s2 else fail s2 "row-outside-its-interval"
   let s4 := if ids.eraseDups.length = ids.length then s3 else fail s3 "row-twice-in-one-result"
   -- every on-time row of the interval that has arrived is reported
-  let s5 := if s.seen.all (fun r => !(r.onTime && !r.corrupt && decide (start ≤ r.ts) && decide (r.ts < stop)) || ids.contains r.id)
+  let s5 := if s.seen.all (fun r => !(r.onTime && !r.corrupt && r.grp == g && decide (start ≤ r.ts) && decide (r.ts < stop)) || ids.contains r.id)
             then s4 else fail s4 "on-time-row-missing-from-its-interval"
   -- first firings are strictly increasing, hence no interval twice
-  let s6 := match s.firsts.getLast? with
-            | some (ps, _, _) => if ps < start then s5 else fail s5 "intervals-not-increasing"
+  let s6 := match ((s.firsts.zip s.firstGrp).filter (fun p => p.2 == g)).getLast? with
+            | some ((ps, _, _), _) => if ps < start then s5 else fail s5 "intervals-not-increasing"
             | none => s5
   -- never before the watermark passed the end
   let s7 := match wmOf c s with
@@ -82,60 +84,67 @@ def checkFirst (c : Cfg) (s : Scan) (start stop : Int) (ids : List Nat) : Scan :
   let s8 := match (s.seen.filter (fun r => r.onTime && !r.corrupt)).map (·.ts) |>.min? with
             | some m => if alignDown m c.slide ≤ start then s7 else fail s7 "interval-before-earliest-event"
             | none => s7
-  { s8 with firsts := s8.firsts ++ [(start, stop, ids)] }
+  { s8 with firsts := s8.firsts ++ [(start, stop, ids)], firstGrp := s8.firstGrp ++ [g] }
 
 /-- a late re-delivery: same interval as an earlier delivery, contents = what was delivered for
-that interval before plus exactly one new row, which is late, lies in the interval, and arrived
-while the interval was still inside the allowance (watermark at its arrival < end + lateness) -/
+that interval before followed by one or more new rows (for overlapping intervals a row that
+updated another interval earlier may follow along), all of them late rows of the interval; the
+last one is the row that caused the re-delivery and arrived while the interval was still inside
+the allowance (watermark at its arrival < end + lateness) -/
 def checkLate (c : Cfg) (s : Scan) (start stop : Int) (ids : List Nat) : Scan :=
   let s1 := if 0 < c.lateness then s else fail s "late-update-without-allowance"
   match s.firsts.find? (fun f => f.1 = start && f.2.1 = stop) with
   | none => fail s1 "late-update-of-unfired-window"
   | some f =>
     let prev := f.2.2
-    let s2 := if ids.take prev.length = prev && ids.length = prev.length + 1 then s1 else fail s1 "late-update-not-previous-plus-one"
+    let s2 := if ids.take prev.length = prev && ids.length > prev.length && ids.eraseDups.length = ids.length
+              then s1 else fail s1 "late-update-not-previous-plus-new"
+    let extra := ids.drop prev.length
+    let s2a := if extra.all (fun i => match lookup s i with
+                | some r => decide (start ≤ r.ts) && decide (r.ts < stop) && !r.onTime
+                | none => false) then s2 else fail s2 "late-update-row-not-a-late-row-of-the-interval"
     let s3 := match ids.getLast? with
       | some i => match lookup s i with
         | some r =>
-          let a := if start ≤ r.ts ∧ r.ts < stop then s2 else fail s2 "late-row-outside-its-interval"
-          let b := if !r.onTime then a else fail a "late-update-by-on-time-row"
           match r.wmAtArrival with
-          | some w => if w < stop + c.lateness then b else fail b "late-update-after-allowance"
-          | none => b
-        | none => fail s2 "late-update-unknown-row"
-      | none => s2
+          | some w => if w < stop + c.lateness then s2a else fail s2a "late-update-after-allowance"
+          | none => s2a
+        | none => s2a
+      | none => s2a
     { s3 with firsts := s3.firsts.map (fun g => if g.1 = start && g.2.1 = stop then (start, stop, ids) else g) }
 
 /-- a late row that falls in an already delivered interval still inside the allowance must be
 re-delivered at once -/
-def expectation (c : Cfg) (s : Scan) (id : Nat) (ts : Int) : Option (Int × Int × Nat) :=
-  if c.lateness ≤ 0 then none else
+def expectation (c : Cfg) (s : Scan) (id : Nat) (ts : Int) : List (Int × Int × Nat) :=
+  if c.lateness ≤ 0 then [] else
   match s.seen.getLast? with
   | some r =>
     if r.id = id ∧ !r.onTime ∧ !r.corrupt then
-      match s.firsts.find? (fun f => decide (f.1 ≤ ts) && decide (ts < f.2.1)), r.wmAtArrival with
-      | some f, some w => if w < f.2.1 + c.lateness then some (f.1, f.2.1, id) else none
-      | _, _ => none
-    else none
-  | none => none
+      match r.wmAtArrival with
+      | some w =>
+        (s.firsts.filter (fun f => decide (f.1 ≤ ts) && decide (ts < f.2.1) && decide (w < f.2.1 + c.lateness))).map
+          (fun f => (f.1, f.2.1, id))
+      | none => []
+    else []
+  | none => []
 
 def stepCore (c : Cfg) (s : Scan) : Ev → Scan
-  | .arr _ none => s
-  | .arr id (some ts) =>
-    let s1 := stepArr c s id ts
+  | .arr _ none _ => s
+  | .arr id (some ts) g =>
+    let s1 := stepArr c s id ts g
     { s1 with expect := expectation c s1 id ts }
-  | .emit false a b ids => checkFirst c s a b ids
-  | .emit true a b ids => checkLate c s a b ids
+  | .emit false a b ids g => checkFirst c s a b ids g
+  | .emit true a b ids _ => checkLate c s a b ids
 
 def step (c : Cfg) (s : Scan) (e : Ev) : Scan :=
   match s.expect with
-  | none => stepCore c s e
-  | some (a, b, id) =>
-    let s0 := { s with expect := none }
+  | [] => stepCore c s e
+  | (a, b, id) :: rest =>
     match e with
-    | .emit true a' b' ids => if a' = a ∧ b' = b ∧ ids.contains id then stepCore c s0 e
-                              else stepCore c (fail s0 "late-row-inside-allowance-not-redelivered") e
-    | _ => stepCore c (fail s0 "late-row-inside-allowance-not-redelivered") e
+    | .emit true a' b' ids _ =>
+      if a' = a ∧ b' = b ∧ ids.contains id then stepCore c { s with expect := rest } e
+      else stepCore c (fail { s with expect := [] } "late-row-inside-allowance-not-redelivered") e
+    | _ => stepCore c (fail { s with expect := [] } "late-row-inside-allowance-not-redelivered") e
 
 def scan (c : Cfg) (evs : List Ev) : Scan := evs.foldl (step c) {}
 
@@ -159,7 +168,7 @@ def complete (c : Cfg) (s : Scan) : Option String :=
     let missing := s.seen.filter fun r =>
       r.onTime && !r.corrupt && (coverStarts c r.ts).any fun st =>
         decide (lo ≤ st) && decide (st + c.size ≤ w) &&
-          !(s.firsts.any fun f => f.1 = st && f.2.2.contains r.id)
+          !((s.firsts.zip s.firstGrp).any fun f => f.1.1 = st && f.2 == r.grp && f.1.2.2.contains r.id)
     match missing with
     | [] => none
     | r :: _ => some s!"on-time-row-never-reported id={r.id}"
@@ -169,7 +178,30 @@ def holds (c : Cfg) (evs : List Ev) (flushed : Bool) : Option String :=
   let s := scan c evs
   match s.err, s.expect with
   | some e, _ => some e
-  | none, some _ => some "late-row-inside-allowance-not-redelivered"
-  | none, none => if flushed then complete c s else none
+  | none, _ :: _ => some "late-row-inside-allowance-not-redelivered"
+  | none, [] => if flushed then complete c s else none
+
+/-- processing-time oracle (tumbling): every delivered result is a size-aligned interval holding
+only rows of that interval, no row is reported twice, and after `ticks` timer ticks every row whose
+interval lies among the first `ticks` intervals (counted from the first row's interval) has been
+reported exactly once -/
+def holdsPT (c : Cfg) (evs : List Ev) (ticks : Nat) : Option String :=
+  let arrs := evs.filterMap fun e => match e with | .arr id (some ts) _ => some (id, ts) | _ => none
+  let ems := evs.filterMap fun e => match e with | .emit _ a b ids _ => some (a, b, ids) | _ => none
+  let tsOf (i : Nat) : Option Int := (arrs.find? (·.1 = i)).map (·.2)
+  let badShape := ems.find? fun e => !(decide (e.2.1 = e.1 + c.size) && decide (e.1 % c.size = 0) &&
+      e.2.2.all fun i => match tsOf i with | some t => decide (e.1 ≤ t) && decide (t < e.2.1) | none => false)
+  let allIds := ems.flatMap (·.2.2)
+  match badShape with
+  | some _ => some "pt-row-outside-its-interval"
+  | none =>
+    if allIds.eraseDups.length ≠ allIds.length then some "pt-row-reported-twice" else
+    match arrs.head? with
+    | none => none
+    | some (_, t0) =>
+      let passedEnd := alignDown t0 c.size + (Int.ofNat ticks) * c.size
+      match arrs.find? (fun a => decide (alignDown a.2 c.size + c.size ≤ passedEnd) && !allIds.contains a.1) with
+      | some a => some s!"pt-row-never-reported id={a.1}"
+      | none => none
 
 end WinSpec
